@@ -3,7 +3,9 @@
 import json, os, shutil, sys
 prop, m = sys.argv[1], sys.argv[2]
 wt = "/tmp/wt/%s/mutants" % prop
-dst = "/verif/seeded/%s-%s" % (prop, m)
+name = sys.argv[3] if len(sys.argv) > 3 else "%s-%s" % (prop, m)
+dst = "/verif/seeded/%s" % name
+prop_id = prop[:3]
 os.makedirs(dst, exist_ok=True)
 shutil.copy(os.path.join(wt, m + ".diff"), os.path.join(dst, "patch.diff"))
 demo_src = os.path.join(wt, m + "_demo")
@@ -14,8 +16,8 @@ shutil.copytree(demo_src, demo_dst, ignore=shutil.ignore_patterns("target", "Car
 desc = open(os.path.join(wt, m + ".md")).read() if os.path.exists(os.path.join(wt, m + ".md")) else ""
 conf = json.load(open(os.path.join(wt, m + ".confirm.json")))
 meta = {
-    "property": prop,
-    "id": "%s-%s" % (prop, m),
+    "property": prop_id,
+    "id": name,
     "description": desc,
     "needs_to_manifest": desc,
     "confirmed_in_scratch_worktree": {
